@@ -33,7 +33,13 @@ RTspdx(e) ==
        (IF KindPairs(g0) = KindPairs(g1) /\ UniqueIds(g1) THEN {} ELSE {"rt.spdx.nodes"})
        \cup (IF Triples(g0) = Triples(g1) THEN {} ELSE {"rt.spdx.edges"})
        \cup (IF Roots(g0) = Roots(g1) THEN {} ELSE {"rt.spdx.roots"})
-       \cup UNION {Diff(CarrySPDX(NodeOf(g0, i)), CarrySPDX(NodeOf(g1, i)), "rt.spdx.attr.") :
+       \* named deviation (known finding): the SPDX serializer strips leading and trailing white space from the copyright
+       \* text; e.crtrim[i] is the stripped text of node i, computed by the harness for the nodes it applies to
+       \cup UNION {LET d == Diff(CarrySPDX(NodeOf(g0, i)), CarrySPDX(NodeOf(g1, i)), "rt.spdx.attr.")
+                       got == CarrySPDX(NodeOf(g1, i)).cr
+                       trimmed == "crtrim" \in DOMAIN e /\ i \in DOMAIN e.crtrim
+                                  /\ got = (IF e.crtrim[i] = "" /\ NodeOf(g0, i).type = 1 THEN "NONE" ELSE e.crtrim[i]) IN
+                   IF "rt.spdx.attr.cr" \in d /\ trimmed THEN (d \ {"rt.spdx.attr.cr"}) \cup {"rt.spdx.attr.cr.trimmed"} ELSE d :
                      i \in {j \in Ids(g0) \cap Ids(g1) : NodeOf(g0, j).type = NodeOf(g1, j).type}}
        \cup (IF Ok(e.w2) /\ Ok(e.r2) /\ SameCarried(NL(e.doc2), g1, LAMBDA n : CarrySPDX(n)) THEN {} ELSE {"rt.spdx.fixpoint"})
 
@@ -177,6 +183,9 @@ JSniff(e) ==
   \cup (IF "preread" \notin DOMAIN e /\ d.object /\ d.bomFormat.t = "absent" /\ d.specVersion.t = "absent" /\ DStr(d, "spdxVersion") = "SPDX-2.3"
            /\ e.res # SPDXJ("2.3") THEN {"sniff.missed"} ELSE {})
 
+\* a destination that stops accepting bytes: a write that reports success there has swallowed the error (C03: the output
+\* of a SUCCESSFUL write contains every node)
+Swallowed(e) == IF "swallowed" \in DOMAIN e /\ e.swallowed # <<>> THEN {"xl.write.error-swallowed"} ELSE {}
 Outcomes(e) == {"total." \o e.fmt \o "." \o o.kind : o \in {x \in {e.w1, e.r1, e.w2, e.r2} : x.kind \in {"panic", "hang", "both", "neither", "exit"}}}
 
 \* observations beyond the listed properties (never a violation, reported in the evidence): the path-taking entry
@@ -199,7 +208,7 @@ Extras(e) ==
 
 Judge(e) ==
   CASE e.op = "RT" ->
-         Outcomes(e) \cup Extras(e)
+         Outcomes(e) \cup Extras(e) \cup Swallowed(e)
          \cup (IF e.cls = "spdx" THEN RTspdx(e) ELSE IF e.cls \in {"cdx14", "cdx15"} THEN RTcdx(e) ELSE {})
          \cup (IF e.fmt = "spdx23" THEN XLspdx(e) ELSE XLcdx(e))
     [] e.op = "PF" ->
